@@ -158,6 +158,17 @@ pub fn run_check(id: &str, tier: Tier) -> i32 {
             }
             assumptions.push("refmodel::http transcribes RFC 9113 §8 / RFC 8441 §4 for the classes C13 names; field value syntax is out of scope".into());
         }
+        "C20" => {
+            for f in [Focus::Coop, Focus::Resets, Focus::Faults] {
+                if parts.iter().all(|p| p.failure.is_none()) {
+                    parts.push(run_engine(&crate::eng_pair::NestEngine { focus: f }, &ctx, scale(tier, 5_000, 300_000)));
+                }
+            }
+            if parts.iter().all(|p| p.failure.is_none()) {
+                parts.push(run_engine(&crate::eng_threads::ThreadEngine, &ctx, scale(tier, 96, 6_000)));
+            }
+            assumptions.push("interleavings are explored on one thread at the points where the connection calls into the transport (the only points at which it has released its locks); true parallel execution (simultaneous lock acquisition, memory ordering) is exercised only by the thorough tier's real-thread stress and is otherwise outside what a deterministic simulator can decide".into());
+        }
         "C18" => {
             parts.push(run_engine(&FloodEngine, &ctx, scale(tier, 1_500, 40_000)));
             assumptions.push("growth is judged by doubling the flood length (no h2 constant baked in); statistics come from the guarded read-only probe sampled every 8 executor steps".into());
@@ -216,7 +227,7 @@ pub fn replay(path: &str) -> i32 {
             crate::eng_raw::dump_raw(&crate::eng_flood::build(&c, c.n));
         }
     }
-    if std::env::var("VERIF_DUMP").is_ok() && engine.starts_with("pair-") {
+    if std::env::var("VERIF_DUMP").is_ok() && (engine.starts_with("pair-") || engine.starts_with("nest-")) {
         if let Ok(c) = serde_json::from_value::<crate::sim_pair::PairCase>(case.clone()) {
             crate::eng_pair::dump_pair(&c);
         }
@@ -237,6 +248,10 @@ pub fn replay(path: &str) -> i32 {
         "raw-flow-server" => runner::replay_case(&FlowEngine, case),
         "raw-capacity-server" => runner::replay_case(&CapEngine, case),
         "flood-doubling" => runner::replay_case(&FloodEngine, case),
+        "threads" => runner::replay_case(&crate::eng_threads::ThreadEngine, case),
+        "nest-coop" => runner::replay_case(&crate::eng_pair::NestEngine { focus: Focus::Coop }, case),
+        "nest-resets" => runner::replay_case(&crate::eng_pair::NestEngine { focus: Focus::Resets }, case),
+        "nest-faults" => runner::replay_case(&crate::eng_pair::NestEngine { focus: Focus::Faults }, case),
         "raw-soup-server" => runner::replay_case(&SoupEngine { server: true }, case),
         "raw-soup-client" => runner::replay_case(&SoupEngine { server: false }, case),
         "raw-shutdown-server" => runner::replay_case(&ShutdownEngine { server: true }, case),
